@@ -13,7 +13,8 @@ IF, THEN, ELSE = 23, 24, 25
 
 def bounds(tier):
     n = 3 if tier == 'quick' else 4
-    return {'exhaustive_sequences': 'every sequence of 1..%d tokens over the 37-kind alphabet (first token fixed per case, the rest symbolic)' % n,
+    return {'tokenizer': 'operator spellings: every string of 1..2 (thorough: 3) characters over operators / brackets / whitespace / digits and 14 Unicode operator characters must tokenize exactly as the documented spelling table says, or be rejected',
+            'exhaustive_sequences': 'every sequence of 1..%d tokens over the 37-kind alphabet (first token fixed per case, the rest symbolic)' % n,
             'templates': 'longer sequences with operands fixed and 2-3 operator positions symbolic over the 23 operators: x o x o x, x o x o x o x, - x o x o x, x o - x o x, x o x o x !, if x o x then x o x else x o x, if x then x else x o x o x, x o x o x o x with parentheses variants'}
 
 def exhaustive(tier): return False
@@ -45,7 +46,8 @@ def plan(tier, rnd, units):
             opk = [4, 5, 6, 7, 8, 9, 10, 11, 12, 13, 14, 15, 16, 17, 18, 19, 20, 21, 22, 23, 24, 25, 27][op]
             tt = list(t); tt[j] = str(opk)
             cases.append({'id': 'tmpl%d-op%d' % (i, opk), 'label': 'template %s' % ' '.join(tt), 'cfg': {0: ' '.join(tt)}})
-    return [{'entry': 'h_c10_parse', 'cases': cases, 'opts': {'mode': 'replay', 'max_paths': 200000, 'instr_budget': 50_000_000},
+    from . import common
+    return [common.tokenizer_job(tier), {'entry': 'h_c10_parse', 'cases': cases, 'opts': {'mode': 'replay', 'max_paths': 200000, 'instr_budget': 50_000_000},
              'expect_covers': ['c10-real-parser-finished', 'c10-reference-finished', 'c10-both-accept', 'c10-both-reject'], 'selftest_inputs': _inputs}]
 
 def classify(v, case): return None
